@@ -5,7 +5,6 @@ package store
 // process (see child.go); the worker only sees requests and responses.
 
 import (
-	"bytes"
 	"encoding/hex"
 	"errors"
 	"fmt"
@@ -151,7 +150,6 @@ func (h *hdr) Decode(rd io.Reader) error {
 type sutState struct {
 	dbs    map[string]*blockdb.BlockDB // by file: objects that wrote a db
 	reader *blockdb.BlockDB
-	bspecs map[string]*block.Block
 }
 
 var (
@@ -804,5 +802,3 @@ func scrub(s, root string) string {
 	}
 	return strings.ReplaceAll(s, root, "$SCRATCH")
 }
-
-var _ = bytes.Equal
